@@ -118,13 +118,17 @@ inductive VSpec where
   | fn (g : List Rat → List Rat)
 
 /-- `Field._as_array(value, mesh, nvdim, dtype)` for the kinds above: a number is accepted
-for `nvdim = 1` or when it is 0; a vector must have `nvdim` entries; an array must have
+for `nvdim = 1` or when it is 0; a vector must have `nvdim` entries (for `nvdim = 1` on a 1-d mesh
+a sequence as long as the mesh is taken per cell, as the code does); an array must have
 shape `(*mesh.n, nvdim)`; a callable is evaluated at every cell centre and must return
 `nvdim` numbers. -/
 def valuesOf (m : Mesh) (nvdim : Nat) : VSpec → M (NDA (List Rat))
   | .scalar c =>
     if 1 < nvdim ∧ c ≠ 0 then .error .value else .ok ⟨m.n, fun _ => List.replicate nvdim c⟩
-  | .vec v => if v.length ≠ nvdim then .error .value else .ok ⟨m.n, fun _ => v⟩
+  | .vec v =>
+    if nvdim = 1 ∧ m.n = [v.length] then .ok ⟨m.n, fun i => [v.getD (i.getD 0 0) 0]⟩  -- the `(n,)`-shaped shortcut
+    else if v.length ≠ nvdim then .error .value
+    else .ok ⟨m.n, fun _ => v⟩
   | .arr a =>
     if a.shape ≠ m.n then .error .value
     else if !(indicesC m.n).all (fun i => (a.get i).length == nvdim) then .error .value
